@@ -407,10 +407,29 @@ func (w *world) stagingRootKind() string {
 	switch {
 	case err != nil:
 		return "none"
+	case info.Mode()&os.ModeSymlink != 0:
+		return "link"
 	case info.IsDir():
 		return "dir"
+	case info.Mode().IsRegular():
+		return "file"
 	}
-	return "file"
+	return "other"
+}
+
+// stagingPrefixLink reports whether a two-character entry of a real staging root
+// directory is a symbolic link (lstat only).
+func (w *world) stagingPrefixLink() bool {
+	if w.stagingRootKind() != "dir" {
+		return false
+	}
+	entries, _ := os.ReadDir(w.staging)
+	for _, e := range entries {
+		if len(e.Name()) == 2 && e.Type()&os.ModeSymlink != 0 {
+			return true
+		}
+	}
+	return false
 }
 
 func (w *world) close() {
